@@ -530,8 +530,8 @@ func parseContent(contentMap map[string]any) (Content, error) {
 
 // parseTextContent parses text content
 func parseTextContent(contentMap map[string]any) (Content, error) {
-	text := extractString(contentMap, "text")
-	if text == "" {
+	text, ok := contentMap["text"].(string)
+	if !ok {
 		return nil, fmt.Errorf("text is missing")
 	}
 	return NewTextContent(text), nil
@@ -539,9 +539,9 @@ func parseTextContent(contentMap map[string]any) (Content, error) {
 
 // parseImageContent parses image content
 func parseImageContent(contentMap map[string]any) (Content, error) {
-	data := extractString(contentMap, "data")
-	mimeType := extractString(contentMap, "mimeType")
-	if data == "" || mimeType == "" {
+	data, hasData := contentMap["data"].(string)
+	mimeType, hasMimeType := contentMap["mimeType"].(string)
+	if !hasData || !hasMimeType {
 		return nil, fmt.Errorf("image data or mimeType is missing")
 	}
 	return NewImageContent(data, mimeType), nil
@@ -597,7 +597,7 @@ func parseResourceContents(contentMap map[string]any) (ResourceContents, error) 
 
 	mimeType := extractString(contentMap, "mimeType")
 
-	if text := extractString(contentMap, "text"); text != "" {
+	if text, ok := contentMap["text"].(string); ok {
 		return TextResourceContents{
 			URI:      uri,
 			MIMEType: mimeType,
@@ -605,7 +605,7 @@ func parseResourceContents(contentMap map[string]any) (ResourceContents, error) 
 		}, nil
 	}
 
-	if blob := extractString(contentMap, "blob"); blob != "" {
+	if blob, ok := contentMap["blob"].(string); ok {
 		return BlobResourceContents{
 			URI:      uri,
 			MIMEType: mimeType,
